@@ -127,6 +127,15 @@ func newEpisode(run *hx.Run, c cfg) (*episode, bool) {
 	mock, err := beaconmock.New(ctx,
 		beaconmock.WithEndpoint("/eth/v1/config/fork_schedule", c.schedJSON()),
 		beaconmock.WithGenesisValidatorsRoot(c.gvr))
+	for try := 0; err != nil && try < 5; try++ {
+		// a loaded machine can make the mock's own http client time out: try again before giving up
+		cancel()
+		time.Sleep(time.Duration(100*(try+1)) * time.Millisecond)
+		ctx, cancel = context.WithCancel(context.Background())
+		mock, err = beaconmock.New(ctx,
+			beaconmock.WithEndpoint("/eth/v1/config/fork_schedule", c.schedJSON()),
+			beaconmock.WithGenesisValidatorsRoot(c.gvr))
+	}
 	if err != nil {
 		cancel()
 		run.Count("cfg:mock-rejected")
